@@ -266,3 +266,21 @@ LEMMAS['C02/size-bound'] = dict(
     hyps=['n >= 0', 'forall(i, 0, n, 0 <= r[i] and r[i] <= 1)'],
     uses=[('SUM/le', {'f': 'r', 'g': 'lam(i, n, 1)', 'n': 'n'}), ('SUM/const', {'n': 'n', 'cst': '1'}), ('SUM/le', {'f': 'lam(i, n, 0)', 'g': 'r', 'n': 'n'}), ('SUM/const', {'n': 'n', 'cst': '0'})],
     goals=[('number-of-assigned-students-between-0-and-n', '0 <= Sum(i, n, r[i]) and Sum(i, n, r[i]) <= n')])
+
+# ---- C01: the reported matching is valid.  Composition of (a) Solver.solve: every valuation satisfying the solved program is binary and
+#      satisfies the row / project-list / lecturer-list constraints; (b) set_project_lists / set_lecturer_lists: for EVERY weight of pair
+#      objects the weights on list j add up to the weights of the pairs with index j - instantiated here with W(x) := nu(x.lp_var);
+#      (c) T3 made explicit (identify_solution): nu is the valuation the solver reported with status Optimal, so it satisfies the program.
+#      Conclusion: the two solution preconditions of Model.get_results, from which get_results proves "the printed matching is valid".
+NUW = {'W': (['x'], 'nu(x.lp_var)')}
+LEMMAS['C01/reported-matching-valid'] = dict(
+    vars={'S': ('obj', 'Solver')}, identify_solution=True,
+    hyps=['sizes_ok(S.model)', 'pairs_ok(S.model)', 'has_vars(S.model.pairs)',
+          'len(S.model.project_lists) == S.model.num_projects', 'len(S.model.lecturer_lists) == S.model.num_lecturers',
+          'not S.options_parser.solver_options[Solver_options.BRUTEFORCE]',
+          ('the-reported-valuation-satisfies-the-program', 'feas()'),
+          ('ensures', 'solver:Solver.solve', {'self': 'S'}, None, ['lp-mode-every-solution-of-the-program-is-binary-and-within-the-quotas']),
+          ('ensures', 'model:Model.set_project_lists', {'self': 'S.model'}, NUW, ['sum-over-each-list-is-the-sum-over-the-pairs-with-that-index-for-every-weight']),
+          ('ensures', 'model:Model.set_lecturer_lists', {'self': 'S.model'}, NUW, ['sum-over-each-list-is-the-sum-over-the-pairs-with-that-index-for-every-weight'])],
+    goals=[('requires', 'model:Model.get_results', {'self': 'S.model', 'pc': 'S.options_parser.instance_options[Instance_options.PC]'}, None,
+            ['optimal-solution-is-binary', 'optimal-solution-respects-the-quotas'])])
